@@ -2,34 +2,62 @@ package base
 
 import "ti/verifapi"
 
-// VerifSymScalar returns a T whose kind is a solver variable over the plain value kinds.
-func VerifSymScalar(name string) *T {
-	k := verifapi.Int(name, 0, 300)
-	verifapi.Assume(k == NIL || k == INT || k == STRING || k == BOOL || k == FLOAT || k == SYMBOL)
-	return &T{tType: k, objectClass: "K", val: "k"}
-}
+// Kind table for symbolic values. Index -> (tType, class name).
+//   0 NilClass 1 Integer 2 String 3 Bool 4 Float 5 Symbol 6 Array 7 Hash 8 Range
+//   9 object VA 10 object VB 11 untyped 12 unknown (identifier) 13 block
+const (
+	VkNil = iota
+	VkInt
+	VkString
+	VkBool
+	VkFloat
+	VkSymbol
+	VkArray
+	VkHash
+	VkRange
+	VkObjA
+	VkObjB
+	VkUntyped
+	VkUnknown
+	VkBlock
+	VkCount
+)
 
-// VerifSymValue returns a value T of symbolic kind with the matching class name.
-func VerifSymValue(name string) *T {
-	k := verifapi.Int(name, 0, 5)
+var verifKindNames = []string{"NilClass", "Integer", "String", "Bool", "Float", "Symbol", "Array", "Hash", "Range", "VA", "VB", "Untyped", "Unknown", "Block"}
+var verifKindVals = []string{"nil", "1", "String", "bool", "1.0", "symbol", "array", "hash", "range", "VA", "VB", "untyped", "unknown", "block"}
+
+// VerifKindT builds the T the factories (Make*) produce for a kind index; k may be symbolic.
+func VerifKindT(k int) *T {
 	return &T{
-		tType:       verifapi.PickInt(k, NIL, INT, STRING, BOOL, FLOAT, SYMBOL),
-		objectClass: verifapi.Pick(k, "NilClass", "Integer", "String", "Bool", "Float", "Symbol"),
-		val:         "sym",
+		tType:       verifapi.PickInt(k, NIL, INT, STRING, BOOL, FLOAT, SYMBOL, ARRAY, HASH, RANGE, OBJECT, OBJECT, UNTYPED, UNKNOWN, BLOCK),
+		objectClass: verifapi.Pick(k, verifKindNames...),
+		val:         verifapi.Pick(k, verifKindVals...),
 	}
 }
 
-// VerifSymUnion returns a scalar (n==1) or a union of n variants, 1<=n<=max.
-func VerifSymUnion(name string, max int) *T {
-	n := verifapi.Int(name+"n", 1, max)
+// VerifSymKind returns a fresh kind index in [0,hi].
+func VerifSymKind(name string, hi int) int { return verifapi.Int(name, 0, hi) }
+
+// VerifSymT returns a scalar (n==1) or a union of n variants with kind indices in [0,hi];
+// also returns the kind indices.
+func VerifSymT(name string, maxVariants, hi int) (*T, []int) {
+	n := verifapi.Int(name+"n", 1, maxVariants)
 	var vs []T
+	var ks []int
 	for i := 0; i < n; i++ {
-		vs = append(vs, *VerifSymScalar(name + "k"))
+		k := VerifSymKind(name+"k", hi)
+		ks = append(ks, k)
+		vs = append(vs, *VerifKindT(k))
 	}
 	if len(vs) == 1 {
-		return &vs[0]
+		return &vs[0], ks
 	}
-	return MakeUnion(vs)
+	return MakeUnion(vs), ks
+}
+
+// VerifSymValue: a value T of symbolic plain kind (0..5), as literals and builtin returns have.
+func VerifSymValue(name string) *T {
+	return VerifKindT(verifapi.Int(name, 0, 5))
 }
 
 func VerifKinds(t *T) []int {
@@ -37,4 +65,37 @@ func VerifKinds(t *T) []int {
 		return t.GetVariantTypes()
 	}
 	return []int{t.tType}
+}
+
+func VerifShape(ks []int) string {
+	switch len(ks) {
+	case 1:
+		return "scalar"
+	case 2:
+		return "union2"
+	case 3:
+		return "union3"
+	}
+	return "unionN"
+}
+
+func VerifKindName(k int) string { return verifapi.Pick(k, verifKindNames...) }
+
+func VerifKindList(ks []int) string {
+	s := ""
+	for i, k := range ks {
+		if i > 0 {
+			s += "|"
+		}
+		s += VerifKindName(k)
+	}
+	return s
+}
+
+func VerifKindNames(ks []int) []string {
+	var out []string
+	for _, k := range ks {
+		out = append(out, VerifKindName(k))
+	}
+	return out
 }
